@@ -127,6 +127,8 @@ CallEdit(i, pos) ==
 CallAssignFrom(i, j) ==
   [o |-> [op |-> "assign_from", i |-> i, j |-> j, share_ok |-> TRUE, compat |-> TRUE], res |-> OkRes(<<>>), used |-> Len(w[j].items),
    w2 |-> [w EXCEPT ![i].items = [k \in 1..Len(w[j].items) |-> [w[j].items[k] EXCEPT !.id = nid + k - 1]]]]
+\* the block's own track list (or something that reads lazily from it) assigned to the block itself
+CallAssignSelf(i) == [o |-> [op |-> "assign_self", i |-> i, share_ok |-> FALSE], w2 |-> w, res |-> OkRes(<<>>), used |-> 0]
 CallPoke(i) == [o |-> [op |-> "poke", i |-> i, share_ok |-> FALSE], w2 |-> w, res |-> OkRes(<<>>), used |-> 0]
 CallEncode(i) ==
   LET a == w[i] IN
@@ -174,6 +176,7 @@ Calls ==
   \cup UNION {{CallEdit(i, pos) : pos \in 1..Len(w[i].items)} : i \in {k \in 1..NI : w[k].ex /\ HasContent}}
   \cup {CallPoke(i) : i \in {k \in 1..NI : w[k].ex}}
   \cup (IF Kind \in {"Data3D", "Force"} THEN {c \in {CallAssignFrom(i, j) : i \in 1..NI, j \in 1..NI} : c.o.i # c.o.j /\ w[c.o.i].ex /\ w[c.o.j].ex} ELSE {})
+  \cup (IF Kind \in {"Data3D", "Force"} THEN {CallAssignSelf(i) : i \in {k \in 1..NI : w[k].ex}} ELSE {})
 
 Fits(c) == \A i \in 1..NI : /\ Len(c.w2[i].items) <= MaxItems /\ c.w2[i].aux <= 2
                              /\ \A ch \in Range(c.w2[i].chans) : ch <= MaxChan
@@ -202,6 +205,7 @@ Encode(i)             == Ex(i) /\ Act(CallEncode(i))
 AuxEdit(i)            == Ex(i) /\ Kind = "Data3D" /\ Act(CallAux(i))
 EditItem(i, pos)      == Ex(i) /\ HasContent /\ pos <= Len(w[i].items) /\ Act(CallEdit(i, pos))
 Poke(i)               == Ex(i) /\ Act(CallPoke(i))
+AssignSelf(i)         == Ex(i) /\ Kind \in {"Data3D", "Force"} /\ Act(CallAssignSelf(i))
 AssignFrom(i, j)      == Ex(i) /\ Ex(j) /\ i # j /\ Kind \in {"Data3D", "Force"} /\ Act(CallAssignFrom(i, j))
 
 BulkRemove(i, ks)     == Ex(i) /\ HasBulk /\ Act(CallBulkRemove(i, ks))
@@ -210,6 +214,7 @@ Next ==
   \/ \E i \in 1..NI :
         \/ \E ls \in LabelSeqs(2) : Construct(i, ls)
         \/ \E j \in 1..NI : Decode(i, j) \/ AssignFrom(i, j)
+        \/ AssignSelf(i)
         \/ \E l \in Labels, g \in BOOLEAN, c \in Chans \cup {Auto} : Add(i, l, g, c)
         \/ \E l \in Labels : RemoveLabel(i, l)
         \/ \E k \in 0..MaxItems : RemoveIndex(i, k)
